@@ -136,12 +136,18 @@ Definition t2j_doc (dlex : Z -> list Z) (o : Z) (D : defs) (n : nat) (t : ty) (v
   end.
 
 (* ---- comparison of two documents by denotation ----
-   integer lexemes by exact value, every other number through the correctly rounded dec2f64 (bit equality: the sign
+   integer lexemes by exact value (and the sign of a zero), every other number through the correctly rounded dec2f64 (bit equality: the sign
    of zero counts), strings / keys / booleans exactly, arrays and objects member by member in order. *)
+Definition lex_neg (l : list Z) : bool := match l with c :: _ => c =? 45 | [] => false end.
+
 Definition num_same (a b : list Z) : bool :=
   if zlist_eqb a b then true     (* the same lexeme denotes the same number *)
   else if lex_is_plain_int a && lex_is_plain_int b then
-    match parse_int a, parse_int b with Some x, Some y => x =? y | _, _ => false end
+    (* integers by value; a zero written with a minus sign is the double -0.0 (t2j writes it so), which is not 0 *)
+    match parse_int a, parse_int b with
+    | Some x, Some y => (x =? y) && (negb (x =? 0) || Bool.eqb (lex_neg a) (lex_neg b))
+    | _, _ => false
+    end
   else if lex_is_plain_int a || lex_is_plain_int b then false
   else match lex2f64 a, lex2f64 b with Some x, Some y => x =? y | _, _ => false end.
 
